@@ -17,7 +17,7 @@ ENV.pop("GOWORK", None)
 
 
 def sh(cmd, cwd, timeout=1500):
-    p = subprocess.run(cmd, shell=True, cwd=cwd, env=ENV, stdout=subprocess.PIPE, stderr=subprocess.STDOUT, text=True, timeout=timeout)
+    p = subprocess.run(cmd, shell=True, cwd=cwd, env=ENV, stdout=subprocess.PIPE, stderr=subprocess.STDOUT, text=True, errors="replace", timeout=timeout)
     return p.returncode, p.stdout
 
 
@@ -41,7 +41,11 @@ def main():
     cmd = meta.get("demo_cmd", "")
     # package dir of the demo
     if meta.get("demo_files"):
-        pkgdir = os.path.dirname(meta["demo_files"][0])
+        df = meta["demo_files"][0]
+        m1 = re.search(r"copy (?:in)?to ([\w/\-\.]+)", df)
+        pkgdir = m1.group(1).rstrip("/") if m1 else os.path.dirname(df.split()[0])
+        if not pkgdir:
+            meta = dict(meta); meta.pop("demo_files")
     elif "cd cmd/application" in cmd or "cmd/application" in cmd and "./pkg" not in cmd:
         pkgdir = "cmd/application"
     else:
